@@ -99,6 +99,7 @@ class ExplorerScriptSsbDecompiler:
         self.performance_progress_list_var_name = performance_progress_list_var_name
         self.dungeon_mode_constants = dungeon_mode_constants
         self.forever_start_handler_stack = []
+        self._offset_of_unwritten_jump: int | None = None
 
     def convert(self) -> tuple[str, SourceMap]:
         logger.debug("Decompiling ExplorerScript...")
@@ -106,6 +107,7 @@ class ExplorerScriptSsbDecompiler:
         self.indent = 0
         self.labels_already_printed = []
         self._line_number = 1
+        self._offset_of_unwritten_jump = None
         self.smb = SourceMapBuilder()
 
         raw_routine_backup_ops = deepcopy(self._routine_ops)
@@ -187,6 +189,20 @@ class ExplorerScriptSsbDecompiler:
             self.write_line()
         self._line_number += stmnt.count("\n")
         self._output += stmnt
+        # Whatever was written, it is not the jump statement of a jump that was processed before.
+        self._offset_of_unwritten_jump = None
+
+    def jump_will_be_written_by_label(self, op_offset: int) -> None:
+        """
+        A jump operation was processed. Nothing is written for it now; if the label it leads to
+        writes a jump statement as the next statement, the source map entry for the jump is added then.
+        """
+        self._offset_of_unwritten_jump = op_offset
+
+    def _write_jump_stmnt(self, label_id: int) -> None:
+        if self._offset_of_unwritten_jump is not None:
+            self.source_map_add_opcode(self._offset_of_unwritten_jump)
+        self.write_stmnt(f"jump @label_{label_id};")
 
     def write_line(self) -> None:
         self._line_number += 1
@@ -206,10 +222,10 @@ class ExplorerScriptSsbDecompiler:
         # Depending on what the previous operation was, this has to be printed differently
         if not isinstance(previous_op, SsbLabelJump):
             # We need a jump now. We didn't have one but now we will.
-            self.write_stmnt(f"jump @label_{label_id};")
+            self._write_jump_stmnt(label_id)
         elif previous_op.get_marker() is None:
             # Normal jump, just print that
-            self.write_stmnt(f"jump @label_{label_id};")
+            self._write_jump_stmnt(label_id)
         elif isinstance(previous_op.get_marker(), ForeverContinue) or isinstance(
             previous_op.get_marker(), ForeverBreak
         ):
@@ -218,7 +234,7 @@ class ExplorerScriptSsbDecompiler:
             pass
         else:
             # Jump as part of a control structure
-            self.write_stmnt(f"jump @label_{label_id};")
+            self._write_jump_stmnt(label_id)
 
     def source_map_add_opcode(self, op_offset: int, on_current_line: bool = False) -> None:
         """
